@@ -146,6 +146,8 @@ class HexFile:
                     r1.add_data(r2.data)
                     self.regions.remove(r2)
                     change = True
+                    # The region list changed, restart the scan:
+                    break
                 elif r1.end_address > r2.address:
                     raise HexFileException("Overlapping regions")
 
